@@ -419,6 +419,39 @@ func (cat *engCatalogue) ensureDataset(rel string) bool {
 		for _, f := range []string{"TestingModel.csv", "TestingSubcatchments.csv", "TestingGullies.csv", "TestingActions.csv"} {
 			copyFile(filepath.Join(src, f), filepath.Join(dir, f))
 		}
+	case strings.HasPrefix(rel, "ds/broken-"):
+		// data sets that LOAD as CSV but cannot be built into a catchment model (or whose meta-file names a missing file):
+		// a scenario naming one is a client error, whatever stage finds it out
+		kind := strings.TrimSuffix(strings.TrimPrefix(rel, "ds/broken-"), "/bModel.csv")
+		if rel != "ds/broken-"+kind+"/bModel.csv" {
+			return false
+		}
+		dir := filepath.Join(cat.root, "ds", "broken-"+kind)
+		must(os.MkdirAll(dir, 0o755))
+		src := filepath.Join(repo, "cmd/cremengine/engine/api/testdata")
+		for _, f := range []string{"ValidSubcatchments.csv", "ValidGullies.csv", "ValidActions.csv"} {
+			copyFile(filepath.Join(src, f), filepath.Join(dir, f))
+		}
+		meta := "TableName, FilePath\nSubcatchments, ValidSubcatchments.csv\nGullies, ValidGullies.csv\nActions, ValidActions.csv\n"
+		switch kind {
+		case "noactions":
+			meta = "TableName, FilePath\nSubcatchments, ValidSubcatchments.csv\nGullies, ValidGullies.csv\n"
+		case "nosubs":
+			meta = "TableName, FilePath\nGullies, ValidGullies.csv\nActions, ValidActions.csv\n"
+		case "nogullies":
+			meta = "TableName, FilePath\nSubcatchments, ValidSubcatchments.csv\nActions, ValidActions.csv\n"
+		case "missingfile":
+			meta = "TableName, FilePath\nSubcatchments, ValidSubcatchments.csv\nGullies, ValidGullies.csv\nActions, NoSuchActions.csv\n"
+		case "headeronly":
+			b, err := os.ReadFile(filepath.Join(dir, "ValidActions.csv"))
+			must(err)
+			must(os.WriteFile(filepath.Join(dir, "ValidActions.csv"), []byte(strings.SplitN(string(b), "\n", 2)[0]+"\n"), 0o644))
+		case "emptymeta":
+			meta = "TableName, FilePath\n"
+		default:
+			return false
+		}
+		must(os.WriteFile(filepath.Join(dir, "bModel.csv"), []byte(meta), 0o644))
 	case rel == "ds/four/FourModel.csv":
 		genFourDataset(repo, filepath.Join(cat.root, "ds/four"))
 	case bigDsRe.MatchString(rel):
